@@ -305,3 +305,148 @@ def replay(w):
         return []
     err = scenario(g, install, w['layout'], w['op'], name)
     return [err] if err else []
+
+
+# ---------------------------------------------------------------- provisioning: one directory per account
+class _MemRecords:
+    """stands in for the users / passwords / groups files of the maildir backend (their text format is not the subject
+    here): records are kept in memory, looked up by symbolic equality of the name"""
+
+    def __init__(self, store, build):
+        self.store = store
+        self.build_record = build
+
+    def _find(self, name):
+        for rec in self.store:
+            if len(rec.name) == len(name) and bool(rec.name == name):
+                return rec
+        return None
+
+    def has(self, name):
+        return self._find(name) is not None
+
+    def get(self, name):
+        rec = self._find(name)
+        if rec is None:
+            raise KeyError(name)
+        return rec
+
+    def set(self, record):
+        old = self._find(record.name)
+        if old is not None:
+            self.store.remove(old)
+        self.store.append(record)
+
+    def remove(self, name):
+        old = self._find(name)
+        if old is None:
+            raise KeyError(name)
+        self.store.remove(old)
+
+    def get_user(self, name):
+        return frozenset()
+
+    def remove_user(self, name):
+        pass
+
+    def merge(self, records):
+        for _ in records:
+            pass
+
+
+def _file_stub(store, real):
+    class _Ctx:
+        async def __aenter__(self):
+            return _MemRecords(store, real.build_record)
+
+        async def __aexit__(self, *a):
+            return False
+
+    class _File:
+        build_record = real.build_record
+
+        @classmethod
+        def with_write(cls, base_dir):
+            return _Ctx()
+
+        with_read = with_write
+    return _File
+
+
+def provision(g, n1, n2):
+    """the real maildir Identity.set() for two accounts whose names differ, default parameters; then the mailbox directory
+    each of them is served from (Identity.new_session -> _load_maildir: os.path.join(base_dir, home_dir)).  Two accounts
+    never share a directory.  returns (error|None)"""
+    import types
+    import os.path
+    import pymap.backend.maildir as MD
+    from pymap.user import UserMetadata
+    users, shadows, groups = [], [], []
+    saved = (MD.UsersFile, MD.PasswordsFile, MD.GroupsFile)
+    MD.UsersFile, MD.PasswordsFile, MD.GroupsFile = (_file_stub(users, saved[0]), _file_stub(shadows, saved[1]),
+                                                     _file_stub(groups, saved[2]))
+    try:
+        import pysasl.prep
+        prep = pysasl.prep.saslprep
+        if not (isinstance(n1, str) and isinstance(n2, str)):
+            from pysymex import loader
+            prep = loader._make_prep_facade().saslprep        # what the instrumented modules get for pysasl.prep
+        cfg = types.SimpleNamespace(base_dir='/srv/mail', password_prep=prep, layout='++', colon=None,
+                                    hash_context=None, cpu_subsystem=None)
+
+        def run(co):
+            for _ in range(50):
+                try:
+                    co.send(None)
+                except StopIteration as e:
+                    return e.value
+            raise RuntimeError('did not finish')
+        for name in (n1, n2):
+            ident = MD.Identity(cfg, None, name, None, frozenset(['admin']))
+            try:
+                run(ident.set(UserMetadata(cfg, name, password='pw')))
+            except ValueError:
+                return None            # a name the backend refuses to provision
+        recs = _MemRecords(users, None)
+        r1, r2 = recs._find(n1), recs._find(n2)
+        if r1 is None or r2 is None or r1 is r2:
+            return 'after provisioning two accounts the users file holds %d record(s)' % len(users)
+        join = os.path.join
+        if not (isinstance(r1.home_dir, str) and isinstance(r2.home_dir, str)):
+            from pysymex import loader
+            join = loader._sym_path_join          # the port of posixpath.join the instrumented code gets as well
+        d1 = join(cfg.base_dir, r1.home_dir)
+        d2 = join(cfg.base_dir, r2.home_dir)
+        if len(d1) == len(d2) and bool(d1 == d2):
+            return 'two accounts are served from one directory'
+        return None
+    finally:
+        MD.UsersFile, MD.PasswordsFile, MD.GroupsFile = saved
+
+
+def provision_harness(n1len, n2len):
+    def fn(eng):
+        from pysymex import fresh_str, Outcome
+        from pysymex import symbytes
+        symbytes.SymStr.HASH_OK = True
+        a = fresh_str(eng, 'a', n1len, hi=0x10FFFF)
+        b = fresh_str(eng, 'b', n2len, hi=0x10FFFF)
+        for c in a.items + b.items:
+            eng.add((c.t < 0xD800) | (c.t > 0xDFFF))
+            # the administrator's business, not a user's: account names with path syntax
+            eng.add((c.t != 0x2f) & (c.t != 0) & (c.t != 0x2e))
+        wit = lambda m: {'n1': a.concrete(m), 'n2': b.concrete(m)}  # noqa: E731
+        if n1len == n2len and bool(a == b):
+            return Outcome(True, witness=wit, site='same name')
+        err = provision(None, a, b)
+        return Outcome(err is None, witness=wit, info=err)
+    return fn
+
+
+def provision_replay(w):
+    n1 = ''.join(chr(c) for c in w['n1'])
+    n2 = ''.join(chr(c) for c in w['n2'])
+    if n1 == n2:
+        return []
+    err = provision(None, n1, n2)
+    return [err] if err else []
